@@ -35,13 +35,13 @@ def eval (name : String) (P : List Int) (X : List Nat) : Ans :=
   | "Xor" =>
     let ws := (P.drop 1).map n
     guard (xorNLegal (ws.zip X)) <|
-      ok [xorN (p 0) (ws.zip X)] (decide (p 0 ≤ ws.headD 0) && (ws.zip X).all fun wv => decide (wv.2 < 2 ^ wv.1)) [LSpec.xorN (p 0) X]
+      ok [xorN (p 0) (ws.zip X)] ((ws.zip X).all fun wv => decide (wv.2 < 2 ^ wv.1)) [LSpec.xorN (p 0) X]
   | "Nor" => guard (orNLegal X) <|
-      ok [norN (p 1) (p 0) X] (decide (p 0 ≤ p 1) || allLt (p 1) X) [LSpec.norN (p 0) X]
+      ok [norN (p 0) X] true [LSpec.norN (p 0) X]
   | "Nand2" => ok [nand2 (p 0) (p 1) (x 0) (x 1)] (decide (p 1 ≤ p 0) || decide (x 0 < 2 ^ p 0))
       [LSpec.nandN (p 1) [x 0, x 1]]
-  | "Nor2" => ok [nor2 (p 0) (p 1) (x 0) (x 1)] (decide (p 1 ≤ p 0) || allLt (p 0) X) [LSpec.norN (p 1) [x 0, x 1]]
-  | "Xor2" => ok [xor2 (p 0) (p 1) (p 2) (x 0) (x 1)] (decide (p 2 ≤ p 0) && decide (x 1 < 2 ^ p 1))
+  | "Nor2" => ok [nor2 (p 0) (p 1) (x 0) (x 1)] (decide (x 0 < 2 ^ p 0)) [LSpec.norN (p 1) [x 0, x 1]]
+  | "Xor2" => ok [xor2 (p 0) (p 1) (p 2) (x 0) (x 1)] (decide (x 0 < 2 ^ p 0) && decide (x 1 < 2 ^ p 1))
       [LSpec.xorN (p 2) [x 0, x 1]]
   | "Bit" => ok [Leaf.bit (p 0) (x 0) (p 1)] (decide (1 ≤ p 0)) [LSpec.bit (x 0) (p 1)]
   | "Range" => guard (decide (p 2 ≤ p 1)) <| ok [Leaf.range (p 0) (x 0) (p 1) (p 2)] true [LSpec.range (p 0) (x 0) (p 1) (p 2)]
